@@ -162,6 +162,39 @@ def generate(rng, tier, seed):
                 valid = bits % 8 == 0 and bits // 8 + 2 <= len(clear)
                 c.deferred_raw = (kbpk, i, h, body[: bits // 8] if valid else None)
                 yield c
+        # many optional blocks (two-digit block counts 10..30) and very short keys (one cipher block of key data), both directions
+        for nb in (9, 10, 11, 16, 30):
+            kbpk = rb(rng, ksizes[0])
+            blocks = rand_blocks(rng, nb, [0, 1, 2, 3])
+            if len({b for b, _ in blocks}) != len(blocks):
+                blocks = [(f"{j:02d}", d) for j, (_, d) in enumerate(blocks)]
+            h = make_header(rng, ver, blocks, alg=rng.choice("TDA0"))
+            key = rb(rng, rng.choice([0, 3, 5, 6, 16]))
+            c = Case(f"{ver}:many-blocks:psec-to-spec", {"blocks": nb, "key": len(key)})
+            w = wrap_case(c, kbpk, h, key, rng.choice([None, 0, 5]))
+            if w.ok:
+                i = c.line(f"spec.tr31_unwrap\t{enc_b(kbpk)}\t{enc_s(w.value)}")
+                want = "ok\t" + enc_header(h) + "\t" + enc_b(key)
+                c.pred("key block with many optional blocks / a short key is valid per the specification",
+                       lambda rep, i=i, want=want: None if rep[i] == want else f"specification says {rep[i][:120]}")
+            else:
+                c.fail("wrap raised " + w.err)
+            yield c
+            padlen = (-(2 + len(key))) % bs
+            c = Case(f"{ver}:many-blocks:spec-to-psec", {"blocks": nb, "key": len(key), "padlen": padlen})
+            i = c.line("spec.tr31_build\t" + "\t".join([enc_b(kbpk), enc_header(h), "s:", "i:0", enc_b(key), enc_b(rb(rng, padlen)), "i:0"]))
+            c.deferred = (kbpk, i, h, key)
+            yield c
+        # versions A / C: a correct MAC over encrypted key data that is not a whole number of cipher blocks (or empty)
+        if ver in "AC":
+            for ksize in ksizes:
+                kbpk = rb(rng, ksize)
+                for el in (0, 4, 7, 12, 20, 8, 16):
+                    h = make_header(rng, ver, rand_blocks(rng, rng.choice([0, 1])))
+                    c = Case(f"{ver}:authentic-odd-ciphertext", {"enc_len": el})
+                    i = c.line("spec.tr31_build_rawenc\t" + "\t".join([enc_b(kbpk), enc_header(h), enc_b(rb(rng, el)), "i:0"]))
+                    c.deferred_raw = (kbpk, i, h, None) if el % 8 or el == 0 else (kbpk, i, h, "either")
+                    yield c
         for ksize in ksizes:
             for _ in range(6 * reps):
                 kbpk = rb(rng, ksize)
@@ -207,7 +240,10 @@ def second_pass(cases, replies):
             s = "".join(chr(int(x)) for x in body.split(",")) if body else ""
             r = call_impl("tr31.unwrap", (kbpk, s), stream="tr31")
             c.calls.append({"fn": "tr31.unwrap", "args": [enc_b(kbpk), enc_s(s)], "entropy": "", "stream": "tr31"})
-            if want_key is None:
+            if want_key == "either":
+                if not r.ok and r.err != "tr31":
+                    c.impl_fail.append(f"an authentic block with arbitrary encrypted key data escaped as {r.err}")
+            elif want_key is None:
                 if r.ok:
                     c.impl_fail.append(f"an authentic block whose key length prefix is invalid was unwrapped to a key of {len(r.value[1])} bytes")
                 elif r.err != "tr31":
